@@ -10,6 +10,11 @@ member is member 0 and `enter` never finds a different one.
 namespace CprocVerif.InitSim
 open CprocVerif.Init CprocVerif.Image CprocVerif.InitRef
 
+theorem noDesigs_cons {ds : List Desig} {i : Ini} {rest : Items} (h : noDesigs (.cons ds i rest) = true) :
+    ds = [] ∧ noDesig i = true ∧ noDesigs rest = true := by
+  simp only [noDesigs, Bool.and_eq_true, List.isEmpty_iff] at h
+  exact ⟨h.1.1, h.1.2, h.2⟩
+
 /-- every union recorded as active has its first member active -/
 def ActZ (st : RSt) : Prop := ∀ e ∈ st.act, e.2.2.1 = 0
 
@@ -57,13 +62,13 @@ theorem actZ_zeroed {st : RSt} (pl : Place) (h : ActZ st) : ActZ (zeroed st pl) 
   actZ_zeroIfDirty _ _ _ h
 
 theorem nosw_all (fuel : Nat) :
-    (∀ pl ini rest st r, initOne fuel pl ini rest st = .ok r → okI ini = true → okIs rest = true → ActZ st →
+    (∀ pl ini rest st r, initOne fuel pl ini rest st = .ok r → noDesig ini = true → noDesigs rest = true → ActZ st →
       ActZ r.2 ∧ r.2.nswitch = st.nswitch) ∧
-    (∀ pl pos its st r, contAgg fuel pl pos its st = .ok r → okIs its = true → ActZ st →
+    (∀ pl pos its st r, contAgg fuel pl pos its st = .ok r → noDesigs its = true → ActZ st →
       ActZ r.2 ∧ r.2.nswitch = st.nswitch) ∧
-    (∀ pl its st r, braced fuel pl its st = .ok r → okIs its = true → ActZ st →
+    (∀ pl its st r, braced fuel pl its st = .ok r → noDesigs its = true → ActZ st →
       ActZ r ∧ r.nswitch = st.nswitch) ∧
-    (∀ pl pos its st r, loopB fuel pl pos its st = .ok r → okIs its = true → ActZ st →
+    (∀ pl pos its st r, loopB fuel pl pos its st = .ok r → noDesigs its = true → ActZ st →
       ActZ r ∧ r.nswitch = st.nswitch) := by
   induction fuel with
   | zero =>
@@ -74,14 +79,14 @@ theorem nosw_all (fuel : Nat) :
     · intro pl pos its st r h; simp [loopB] at h
   | succ fuel ih =>
     obtain ⟨ih1, ih2, ih3, ih4⟩ := ih
-    have h1 : ∀ pl ini rest st r, initOne (fuel + 1) pl ini rest st = .ok r → okI ini = true → okIs rest = true →
+    have h1 : ∀ pl ini rest st r, initOne (fuel + 1) pl ini rest st = .ok r → noDesig ini = true → noDesigs rest = true →
         ActZ st → ActZ r.2 ∧ r.2.nswitch = st.nswitch := by
       intro pl ini rest st r h hoi hor ha
       cases ini with
       | list its =>
         rw [initOne.eq_2] at h
         split at h
-        · rename_i st' hb; cases h; exact ih3 _ _ _ _ hb (okI_list hoi) ha
+        · rename_i st' hb; cases h; exact ih3 _ _ _ _ hb (by simpa only [noDesig] using hoi) ha
         · cases h
       | expr e =>
         rcases expr_cases pl.ty e with ⟨size, k, hty⟩ | ⟨n, es, cls, sg, w, scls, cs, hty, rfl⟩ |
@@ -99,13 +104,13 @@ theorem nosw_all (fuel : Nat) :
         · rw [initOne.eq_5 _ _ _ _ _ _ _ _ _ hty, if_pos rfl] at h
           cases h; exact ⟨ha, rfl⟩
         · rw [initOne_elide he] at h
-          exact ih2 _ _ _ _ _ h (by simp [okIs, okI, hor]) ha
+          exact ih2 _ _ _ _ _ h (by simp [noDesigs, noDesig, hor]) ha
     refine ⟨h1, ?_, ?_, ?_⟩
     · intro pl pos its st r h hoi ha
       cases its with
       | nil => rw [contAgg.eq_2] at h; cases h; exact ⟨ha, rfl⟩
       | cons ds i rest =>
-        obtain ⟨rfl, hoi1, hor⟩ := okIs_cons hoi
+        obtain ⟨rfl, hoi1, hor⟩ := noDesigs_cons hoi
         rw [contAgg.eq_4] at h
         split at h
         · cases h; exact ⟨ha, rfl⟩
@@ -115,7 +120,7 @@ theorem nosw_all (fuel : Nat) :
             obtain ⟨a1, a2⟩ := actZ_enter hc ha
             obtain ⟨b1, b2⟩ := ih1 _ _ _ _ _ hi hoi1 hor (actZ_grow _ _ a1)
             have hsuf := (suff_all fuel).1 _ _ _ _ _ hi
-            obtain ⟨c1, c2⟩ := ih2 _ _ _ _ _ h (okIs_suff hsuf (by simp [okIs, hoi1, hor])) b1
+            obtain ⟨c1, c2⟩ := ih2 _ _ _ _ _ h (noDesigs_suff hsuf (by simp [noDesigs, hoi1, hor])) b1
             refine ⟨c1, ?_⟩
             rw [c2, b2, grow_nswitch, a2]
           · cases h
@@ -140,7 +145,7 @@ theorem nosw_all (fuel : Nat) :
       cases its with
       | nil => rw [loopB.eq_2] at h; cases h; exact ⟨ha, rfl⟩
       | cons ds i rest =>
-        obtain ⟨rfl, hoi1, hor⟩ := okIs_cons hoi
+        obtain ⟨rfl, hoi1, hor⟩ := noDesigs_cons hoi
         rw [loopB.eq_3] at h
         split at h
         · cases h
@@ -150,16 +155,23 @@ theorem nosw_all (fuel : Nat) :
             obtain ⟨a1, a2⟩ := actZ_enter hc ha
             obtain ⟨b1, b2⟩ := ih1 _ _ _ _ _ hi hoi1 hor (actZ_grow _ _ a1)
             have hsuf := (suff_all fuel).1 _ _ _ _ _ hi
-            obtain ⟨c1, c2⟩ := ih4 _ _ _ _ _ h (okIs_suff hsuf (by simp [okIs, hoi1, hor])) b1
+            obtain ⟨c1, c2⟩ := ih4 _ _ _ _ _ h (noDesigs_suff hsuf (by simp [noDesigs, hoi1, hor])) b1
             refine ⟨c1, ?_⟩
             rw [c2, b2, grow_nswitch, a2]
           · cases h
 
 /-- no designator: no union member switch -/
-theorem nswitch_zero {t : Ty} {i : Ini} {r : Result} (hr : ref t false i = .ok r) (hok : okI i = true) :
+theorem nswitch_zero {t : Ty} {inc : Bool} {i : Ini} {r : Result} (hr : ref t inc i = .ok r) (hok : noDesig i = true) :
     r.nswitch = 0 := by
-  obtain ⟨rst, hi, _, _, hns⟩ := ref_false hr
-  have := (nosw_all 1000000).1 _ _ _ _ _ hi hok rfl (fun e he => by cases he)
-  rw [hns, this.2]
+  unfold ref at hr
+  split at hr
+  · cases hr
+  · cases hr
+  · rename_i rst hi
+    have := (nosw_all 1000000).1 _ _ _ _ _ hi hok rfl (fun e he => by cases he)
+    split at hr
+    · cases hr
+    · cases hr
+      exact this.2
 
 end CprocVerif.InitSim
